@@ -15,6 +15,7 @@
 (*        64 RayThroughZeroTangentEnd (end of a cubic whose control point coincides with it),        *)
 (*        128 (boundary points only) the point itself is such a zero-tangent end,                    *)
 (*        256 (boundary points only) the point lies on a cubic (end point or dyadic point)           *)
+(* cf = per contour: 1 open, 2 the start point is the bottom-right-most vertex (the vertex CCW uses)  *)
 (* sf = per contour the feature bits of the ray from its start point with respect to the OTHER       *)
 (*      contours (the rays Filling casts)                                                            *)
 (*    wd  the winding number counted over the drawn segments only (open contours NOT closed)        *)
@@ -45,15 +46,14 @@ VARIABLES path, done
 vars == <<path, done>>
 
 PolySet == [1..K -> Pt]
-GenVecs == [1..GenLen -> 0..GenMax]
 FamSet == 1..9
 PathChoice ==
     CASE Mode = "polyall"  -> {<<Poly(c)>> : c \in PolySet}
       [] Mode = "polyrand" -> IF NC = 1 THEN {<<Poly(c)>> : c \in RandomSubset(Num, PolySet)}
                               ELSE {<<Poly(c), Poly(d)>> : c \in RandomSubset(Num, PolySet), d \in RandomSubset(3, PolySet)}
-      [] Mode = "curves"   -> IF NC = 1 THEN {<<DecodeCtr(rv, N, Kinds, FamSet)>> : rv \in RandomSubset(Num, GenVecs)}
-                              ELSE {<<DecodeCtr(rv, N, Kinds, FamSet), DecodeCtr(rw, N, Kinds \cup {"L"}, FamSet)>> :
-                                        rv \in RandomSubset(Num, GenVecs), rw \in RandomSubset(2, GenVecs)}
+      [] Mode = "curves"   -> IF NC = 1 THEN {<<DecodeCtr(GenVec(sd), N, Kinds, FamSet)>> : sd \in RandomSubset(Num, GenSeeds)}
+                              ELSE {<<DecodeCtr(GenVec(sd), N, Kinds, FamSet), DecodeCtr(GenVec(se + 7919 * (sd % 3)), N, Kinds \cup {"L"}, FamSet)>> :
+                                        sd \in RandomSubset(Num, GenSeeds), se \in RandomSubset(2, 1..1000000000)}
 
 P == ScalePath(SC, path)
 
@@ -219,7 +219,11 @@ Scenario ==
         others(j) == SelectSeq([i \in 1..Len(pp) |-> IF i = j THEN Ctr(Z2, <<>>, FALSE) ELSE pp[i]], LAMBDA c : Len(c.segs) > 0)
         sf == [j \in 1..Len(pp) |-> IF Len(pp) = 1 THEN 0 ELSE LET o == others(j) IN
                                        (IF PathWB(o, pp[j].s)[2] = 1 THEN 512 ELSE 0) + FeatD(o, PData(o), pp[j].s)]
-    IN [path |-> path, rows |-> [i \in 1..NQ |-> row(QPt(i))], ccw |-> Orient(pp[1]), fill |-> FillExp(pp), open |-> open, sf |-> sf]
+        \* per contour: 1 = open (not closed and not ending at its start), 2 = its start is the bottom-right-most vertex
+        cf == [j \in 1..Len(pp) |-> LET c == pp[j] vs == CtrVerts(c) IN
+                 (IF ~c.cl /\ EndPt(c) # c.s THEN 1 ELSE 0)
+                 + (IF \A v \in vs : v[1] < c.s[1] \/ (v[1] = c.s[1] /\ v[2] >= c.s[2]) THEN 2 ELSE 0)]
+    IN [path |-> path, rows |-> [i \in 1..NQ |-> row(QPt(i))], ccw |-> Orient(pp[1]), fill |-> FillExp(pp), open |-> open, sf |-> sf, cf |-> cf]
 
 Init == path \in PathChoice /\ done = FALSE
 Emit == ~done /\ done' = TRUE /\ UNCHANGED path /\ PathOK(path) /\ PrintT("@@" \o ToJson(Scenario))
